@@ -1,82 +1,65 @@
-import QP.Proofs.C09Ops3
+import QP.Proofs.C09Main
 /-!
 # C09 — program-tree bookkeeping stays coherent under every sequence of edits
 
 `Coherent t` (`QP/Model/C09.lean`): in every node the cached body duration is empty or equals the
 duration recomputed from the leaves and repetition counts, every child records its position, and
-every child's parent pointer is the node that lists it.
+every child's parent pointer is the node that lists it.  The operations are the model `applyR` of
+the public editing operations of `Loop` / `Node` (with the repairs PF-05, PF-06, PF-12, PF-C09-1).
+Proofs are in `QP/Proofs/C09*.lean`.
 -/
 namespace QP.Props.C09
 open QP.C09
 
 /-- A freshly constructed program (`Loop(children=…)`, bottom-up) is coherent. -/
 theorem coherent_init (uid : Nat) (rep : Int) (vol : Bool) (wf : Option Wf) (meas : List Meas) (kids : List T)
-    (h : CoherentL kids) : Coherent (mkNode uid rep vol wf meas kids) := by
-  unfold mkNode
-  apply coherent_of_links _ _ rfl
-  · intro k c hk
-    simp only [List.getElem?_mapIdx, Option.map_eq_some_iff] at hk
-    obtain ⟨x, _, rfl⟩ := hk
-    simp
-  · intro d hd
-    simp only [List.mem_mapIdx] at hd
-    obtain ⟨j, hj, rfl⟩ := hd
-    exact coherent_withPidx _ _ (coherent_withPar _ _ (coherentL_mem h _ (List.getElem_mem hj)))
+    (h : CoherentL kids) : Coherent (mkNode uid rep vol wf meas kids) :=
+  Main.coherent_init uid rep vol wf meas kids h
 
 /-- `copy_tree_structure` yields a coherent program whatever it copies. -/
 theorem copy_coherent (par : Option Nat) (pidx : Option Int) (t : T) (n : Nat) :
-    Coherent (copyT par pidx t n).1 := copyT_coherent par pidx t n
+    Coherent (copyT par pidx t n).1 := Main.copy_coherent par pidx t n
 
-/-- Every public operation preserves coherence (`Pre`: sub-trees handed in are coherent programs;
-children are appended only to nodes without waveform). -/
+/-- The copy handed out by the `copy` operation is a coherent program of its own. -/
+theorem copy_result_coherent (p : Path) (kp : Bool) (s : St) (c : T)
+    (h : (applyR (.copy p kp) s).out = some c) : Coherent c := Main.copy_result_coherent p kp s c h
+
+/-- Every public operation (query, append_child, item / slice assignment, waveform / repetition
+setters, unroll, unroll_children, split_one_child, encapsulate, _merge_single_child, cleanup,
+reverse_inplace, roll_constant_waveforms, copy_tree_structure) preserves coherence, whatever its
+arguments and whether or not it raises.  `Pre`: sub-trees handed in are coherent programs (fresh or
+detached); children are appended only to nodes without waveform. -/
 theorem op_preserves (op : Op) (s : St) (hs : Coherent s.tree) (hp : Pre op s) :
-    Coherent (apply op s).tree := by
-  have key : ∀ (f : T → Loc) (p : Path),
-      (∀ n, locate s.tree p = some n → Coherent n → LocOk n (f n)) →
-      Coherent (match atPath f p s.tree with
-        | none => ({ st := s, err := some .badPath } : Res)
-        | some r => { st := ⟨r.node, r.next⟩, removed := r.removed, out := r.out, err := r.err }).st.tree := by
-    intro f p hf
-    cases h : atPath f p s.tree with
-    | none => exact hs
-    | some r => exact (atPath_ok f p s.tree hs hf r h).1
-  cases op with
-  | query p => exact key _ _ (fun n _ hc => query_ok _ n hc)
-  | append p a => exact key _ _ (fun n hn hc => append_ok a _ n hc hp.1 (hp.2 n hn))
-  | setItem p idx v => exact key _ _ (fun n _ hc => setItem_ok idx v _ n hc hp)
-  | setSlice p a b c vs => exact key _ _ (fun n _ hc => setSlice_ok a b c vs _ n hc (coherentL_mem hp))
-  | setWf p w => exact key _ _ (fun n _ hc => setWf_ok w _ n hc)
-  | setRep p r v => exact key _ _ (fun n _ hc => setRep_ok r v _ n hc)
-  | unroll p =>
-    cases p with
-    | nil => exact hs
-    | cons k p =>
-      have : apply (.unroll (k :: p)) s =
-          (match atPath ((Op.unroll (k :: p)).loc s.next) (Op.unroll (k :: p)).target s.tree with
-            | none => ({ st := s, err := some .badPath } : Res)
-            | some r => { st := ⟨r.node, r.next⟩, removed := r.removed, out := r.out, err := r.err }).st := rfl
-      rw [this]
-      apply key
-      intro n _ hc
-      simp only [Op.loc]
-      cases (k :: p).getLast? with
-      | some j => exact unroll_ok _ _ n hc
-      | none => exact locOk_err n _ _ hc
-  | unrollChildren p => exact key _ _ (fun n _ hc => unrollChildren_ok _ n hc)
-  | split p idx => exact key _ _ (fun n _ hc => split_ok idx _ n hc)
-  | encapsulate p => exact key _ _ (fun n _ hc => encapsulate_ok _ n hc)
-  | merge p => exact key _ _ (fun n _ hc => merge_ok _ n hc)
-  | cleanup p re mg => exact key _ _ (fun n _ hc => cleanup_ok re mg _ n hc)
-  | reverse p => exact key _ _ (fun n _ hc => reverse_ok _ n hc)
-  | roll p mq q sr => exact key _ _ (fun n _ hc => roll_ok mq q sr _ n hc)
-  | copy p kp => exact key _ _ (fun n _ hc => copy_ok kp _ n hc)
+    Coherent (apply op s).tree := Main.op_preserves op s hs hp
 
-/-- Coherence is an invariant of arbitrary histories: any finite list of operations, duration
-queries (`Op.query`, which populate caches) interleaved anywhere. -/
+/-- Coherence is an invariant of ARBITRARY histories: any finite list of operations with any
+arguments, duration queries (`Op.query`, which populate caches) interleaved anywhere. -/
 theorem history (ops : List Op) (s : St) (hs : Coherent s.tree) (hp : PreAll ops s) :
-    Coherent (ops.foldl (fun s op => apply op s) s).tree := by
-  induction ops generalizing s with
-  | nil => exact hs
-  | cons op ops ih => exact ih (apply op s) (op_preserves op s hs hp.1) hp.2
+    Coherent (ops.foldl (fun s op => apply op s) s).tree := Main.history ops s hs hp
+
+/-- The executable judge decides exactly the specification. -/
+theorem coherentB_iff (t : T) : coherentB t = true ↔ Coherent t := Main.coherentB_iff t
+
+/-- `Coherent` says, node by node: the cache is empty or right, and the children are linked. -/
+theorem coherent_iff_nodes (t : T) :
+    Coherent t ↔ ∀ p n, locate t p = some n → cacheOkHere n ∧ linksOkHere n := Main.coherent_iff_nodes t
+
+/-- The duration reported by any node (`Loop.duration`, reading and filling caches) equals the
+duration recomputed from its leaves and repetition counts. -/
+theorem reported_duration_eq (t : T) (h : Coherent t) (p : Path) (n : T) (hn : locate t p = some n) :
+    reportedDur n = dur n := Main.reported_duration_eq t h p n hn
+
+/-- The chain of recorded positions along a path is that path: `root.locate(n.get_location())` is `n`. -/
+theorem locate_location (t : T) (h : Coherent t) (p : Path) (n : T) (hn : locate t p = some n) :
+    recordedLoc t p = some (p.map (fun (k : Nat) => some (k : Int))) := Main.locate_location t h p n hn
+
+/-- Every child's parent is the node that lists it, at the position it records. -/
+theorem child_parent (t : T) (h : Coherent t) (p : Path) (n c : T) (k : Nat) (hn : locate t p = some n)
+    (hc : n.kids[k]? = some c) : c.info.par = some n.info.uid ∧ c.info.pidx = some (k : Int) :=
+  Main.child_parent t h p n c k hn hc
+
+/-- `Loop.__eq__` is decided by structure, counts, waveforms and measurements only: two programs are
+equal iff they agree after forgetting identity, caches, positions and parent pointers. -/
+theorem eq_structural (a b : T) : eqStruct a b = true ↔ erase a = erase b := Main.eq_structural a b
 
 end QP.Props.C09
